@@ -103,13 +103,17 @@ def check_C06(tier, seed):
 def check_C15(tier, seed):
     v = Verdict("C15", tier, seed)
     exe = build_driver("asan")
-    for c in cfgs(tier, ["comments_quick.cfg", "comments_long.cfg", "comments_list.cfg"], ["comments_thorough.cfg"]):
+    for c in cfgs(tier, ["comments_quick.cfg", "comments_long.cfg", "comments_list.cfg", "comments_star.cfg"], ["comments_thorough.cfg"]):
         res = tlc_parse(v, c, INV_LINES)
-        if "long" in c or "list" in c:
+        if "long" in c or "list" in c or "star" in c:
             # annotations next to long quoted values: only the runs with annotation support on matter here
             res.behaviours = [b for b in res.behaviours if b["pcfg"]["comments"]]
         parsecheck.replay(v, exe, res, aspects={"tree", "diag"}, seed=seed,
                           renderings=("varied",) if c == "comments_quick.cfg" else ("canonical",), tag="C15")
+        if "list" in c or "star" in c:
+            # the annotation is written by print and read back by a re-parse (print -> parse -> compare -> print)
+            res.behaviours = [b for b in res.behaviours if b["parses"][-1]["exp"]["status"] == "ok"]
+            parsecheck.replay(v, exe, res, aspects={"roundtrip"}, seed=seed, renderings=("canonical",), tag="C15rt")
     v.cov["exhaustive"] = True
     return v.finish(rule="every token sequence up to the configured length with comment tokens (empty and non-empty, "
                          "all three styles chosen by the renderer) at every token boundary, annotation support on and off")
@@ -134,7 +138,7 @@ def check_C12(tier, seed):
 def check_C14(tier, seed):
     v = Verdict("C14", tier, seed)
     exe = build_driver("asan")
-    for c in cfgs(tier, ["callbacks_quick.cfg"], ["callbacks_thorough.cfg"]):
+    for c in cfgs(tier, ["callbacks_quick.cfg", "callbacks_drop.cfg"], ["callbacks_thorough.cfg"]):
         res = tlc_parse(v, c, INV_CB)
         parsecheck.replay(v, exe, res, aspects={"tree", "tree_rejected", "diag", "cb"}, seed=seed,
                           renderings=("canonical",), tag="C14")
